@@ -11,6 +11,14 @@ CHECKS = {
          "Generated-input search: arbitrary entry call sequences x all formatter configurations x sampling, every accepted output parsed by an independent strict RFC 8259 parser and checked for the _aws shape; rejected => zero bytes. Finds and shrinks any input that yields malformed output; does not prove absence.",
          "Trusts vh::json (strict parser, unit-tested) and proptest's generators; writer is an in-memory Vec.",
          "DESIGN.md §2 C02"),
+ "C03": ("proptest valid-by-construction entries vs independent reference interpreter (RefEmf), multiset comparison of parsed records",
+         "Generated-input search against a reference model: every accepted output is parsed and compared, as a multiset of records, with an independent interpretation of the recorded call sequence (values, Values/Counts, units, resolution, namespaces, dimension sets, timestamp, sampling weight). Both directions: nothing missing, nothing extra.",
+         "Trusts RefEmf (written from the docs and in-tree expected outputs, no shared code with the formatter), vh::json, RecLog (cross-checked against test_util::to_test_entry in every case).",
+         "DESIGN.md §2 C03"),
+ "C08": ("proptest: valid-by-construction entries + injected defects; differential validated vs unvalidated bytes; duplicate-member validity predicate; both build profiles",
+         "Generated-input search in two build profiles (debug assertions on and off): (a) accepted => no duplicated member (arbitrary + near-miss entries), (b) each of 15 defect kinds injected singly/combined at generated positions => Validation and zero bytes, (c) valid entries accepted and byte-identical (multiset of lines) to the unvalidated twin configuration.",
+         "Trusts the defect injector (each injection is one of the property's listed defects by construction) and vh::json.",
+         "DESIGN.md §2 C08"),
 }
 
 BUILT = set(CHECKS)
